@@ -11,7 +11,7 @@ print('functions',len(per),'obligations',tot,'failed',bad, 'wall', e['wall_s'])
 for f,(t,b) in sorted(per.items()):
     if b or '-a' in sys.argv: print('%-60s %4d %4d'%(f,t,b))
 print('ENGINE ERRORS:')
-for x in (c["engine_errors"] or []): print('  ',x[:300])
+for x in (c["engine_errors"] or []): print("  ",x[:160])
 if '-f' in sys.argv:
     for o in c['obligation_results']:
         if o['result']!='unsat': print(o['result'],o['name'])
